@@ -228,8 +228,8 @@ def run(ctx):
     coq.check_property_file(ctx)
     rng = ctx.rng
     quick = ctx.quick
-    K = 4 if quick else 10
-    n_tables = 36 if quick else 400
+    K = 5 if quick else 10
+    n_tables = 72 if quick else 1200
     ctx.rule = (
         "generated tables (1-4 samples, 2-8 mutations, per mutation one of: clean / missing in a sample / duplicated in one or "
         "all samples / major copy number 0 in one or all samples / extra row with major 0 / major 0 < minor / major < minor "
@@ -248,7 +248,7 @@ def run(ctx):
     plans = []
     for k in range(n_tables):
         plans.append({"allow_reject": k % 6 == 5})
-    for k in range(6 if quick else 40):
+    for k in range(8 if quick else 120):
         plans.append({"degenerate": rng.choice(["mix_dup_missing", "mix_dup_cn0"])})
 
     for k, plan in enumerate(plans):
